@@ -123,6 +123,13 @@ var c11CuratedFamilies = []c11Family{
 		},
 		Roots: []c11Root{{Text: "@bad1"}, {Text: "[@bad1]"}, {Text: "{\n  \"x\": @obj\n}"}},
 	},
+	{ // schemas without a value (empty, blank, only a comment) that receive types all the same
+		Types: []lib.TypeDef{{Name: "@id", Text: "1"}, {Name: "@name", Text: "\"n\""}},
+		Roots: []c11Root{{Text: ""}, {Text: "  \n"}, {Text: "# only a comment\n"}},
+	},
+	{ // roots naming types they were never given (they must keep failing, whatever was built before)
+		Roots: []c11Root{{Text: "{\n  \"k\": @id\n}"}, {Text: "[@name, @id]"}, {Text: "@id | @name"}},
+	},
 	{ // one type object (@item, naming @id) in two roots which bind @id to different types
 		Types: []lib.TypeDef{
 			{Name: "@id", Text: "1"},
@@ -484,8 +491,14 @@ var c11ExhPools = []c11ExhPool{
 	{"roots with their own derived types over shared allOf bases + a document", c11Pool{
 		Families: []c11Family{{Types: c11CuratedFamilies[6].Types, Roots: c11CuratedFamilies[6].Roots[:2]}},
 		Docs:     []c11Doc{{Text: `{"left": 1, "right": 2, "x": "s"}`}}}},
+	{"a schema without a value that receives types, a root naming a type it was not given + a document", c11Pool{
+		Families: []c11Family{
+			{Types: c11CuratedFamilies[8].Types, Roots: c11CuratedFamilies[8].Roots[:1]},
+			{Roots: c11CuratedFamilies[9].Roots[:1]},
+		},
+		Docs: []c11Doc{{Text: `{"k": 1}`}}}},
 	{"one type object in two roots binding a name it references to different types + a document", c11Pool{
-		Families: []c11Family{{Types: c11CuratedFamilies[8].Types, Roots: c11CuratedFamilies[8].Roots[:2]}},
+		Families: []c11Family{{Types: c11CuratedFamilies[10].Types, Roots: c11CuratedFamilies[10].Roots[:2]}},
 		Docs:     []c11Doc{{Text: `{"it": {"id": 5}}`}}}},
 	{"two allOf parents, key shortcut roots + a trailing-characters document", c11Pool{
 		Families: []c11Family{{Types: c11CuratedFamilies[5].Types, Roots: c11CuratedFamilies[5].Roots[:2]}},
@@ -788,6 +801,36 @@ func c11GenOrderCase(r *mon.Rng) *c11OrderCase {
 		for _, i := range r.Perm(len(c11EnumLiterals))[:6] {
 			oc.Docs = append(oc.Docs, c11EnumLiterals[i], "["+c11EnumLiterals[i]+"]")
 		}
+		return oc
+	}
+	if r.Chance(1, 10) {
+		// type names that differ in letter case only, both faulty: the reported one is the same
+		// on every run
+		a, b := mon.Pick(r, [][2]string{{"@Pet", "@pet"}, {"@ID", "@Id"}, {"@aB", "@Ab"}}), 0
+		_ = b
+		faults := []string{"5 // {min: 10}", "\"xx\" // {maxLength: 1}", "\"abc\" // {regex: \"^x\"}", "1 // {enum: [2, 3]}"}
+		mon.Shuffle(r, faults)
+		oc.Fam = c11Family{
+			Types: []lib.TypeDef{{Name: a[0], Text: faults[0]}, {Name: a[1], Text: "\n" + faults[1]}},
+			Roots: []c11Root{{Text: "{\n  \"a\": " + a[0] + ",\n  \"b\": " + a[1] + "\n}"}, {Text: "[" + a[1] + ", " + a[0] + "]"}},
+		}
+		oc.Docs = []string{`{}`, `[]`}
+		return oc
+	}
+	if r.Chance(1, 10) {
+		// several or rule-sets that wrap a user type next to another rule: UsedUserTypes lists
+		// them in document order
+		names := []string{"@cat", "@dog", "@eel", "@fox", "@gnu"}
+		mon.Shuffle(r, names)
+		n := r.Range(2, 5)
+		var sets []string
+		for _, nm := range names[:n] {
+			oc.Fam.Types = append(oc.Fam.Types, lib.TypeDef{Name: nm, Text: "1"})
+			sets = append(sets, "{type: \""+nm+"\", nullable: true}")
+		}
+		oc.Fam.Types = append(oc.Fam.Types, lib.TypeDef{Name: "@id", Text: "7"})
+		oc.Fam.Roots = []c11Root{{Text: "{\n  \"id\": @id,\n  \"pet\": 1 // {or: [" + strings.Join(sets, ", ") + "]}\n}"}}
+		oc.Docs = []string{`{"id": 1, "pet": 1}`, `{"id": 1, "pet": null}`}
 		return oc
 	}
 	if r.Chance(1, 6) {
